@@ -27,6 +27,7 @@ ASSUMPTIONS = [
     "VERIF_SEED only changes the values inside the noise volumes, not which cases are enumerated",
     "FSC with max_shifts > 3 is enumerated in the thorough tier only (cost grows with (2*ceil(M)+3)^3)",
     "bound checked as |shift_i| <= max_i + 1e-4 px (float32 rounding of the refinement grid)",
+    "added during the seeding waves: max_shifts handed over as float32 / float64 arrays and used for two align calls and a fit (the array is compared afterwards)",
 ]
 
 MODELS = ["ZNCC", "NCC", "PCC", "FSC"]
